@@ -2,9 +2,8 @@
    numerals written after ~ and ^ (lexemes matching [0-9.]+), plus programmatic integer
    degrees.  Executable definitions only.
 
-   Modelled: Decimal(str) construction (exact), Decimal.normalize() under the default context
-   (prec = 28, ROUND_HALF_EVEN, then trailing zeros stripped), str(Decimal) (to-scientific-
-   string), numeric equality, int(str).
+   Modelled: Decimal(str) construction (exact), luqum's _normalize_number (trailing zeros stripped, no
+   rounding), format(Decimal, 'f') (positional), str(Decimal) (to-scientific-string), numeric equality, int(str).
    Not modelled: NaN/Infinity, exponents beyond Emax/Emin (needs a lexeme of ~10^6 chars),
    construction from float. *)
 Require Import Base.
@@ -96,13 +95,14 @@ Fixpoint strip_zeros (fuel : nat) (c : N) (e : Z) : N * Z :=
       else (c, e)
   end.
 
-(* Decimal.normalize(): round, then strip trailing zeros; zero becomes 0E0 (sign kept) *)
+(* luqum.tree._normalize_number: Decimal.normalize() under a context whose precision is the number
+   of digits given, i.e. NO rounding: strip trailing zeros; zero becomes 0E0 (sign kept).
+   (dec_round above is the default-context rounding luqum used to apply; kept for reference.) *)
 Definition dec_normalize (d : dec) : dec :=
-  let d' := dec_round d in
-  if N.eqb (dcoef d') 0 then mkDec (dsign d') 0 0
+  if N.eqb (dcoef d) 0 then mkDec (dsign d) 0 0
   else
-    let '(c, e) := strip_zeros (S (N.to_nat (N.size (dcoef d')))) (dcoef d') (dexp d') in
-    mkDec (dsign d') c e.
+    let '(c, e) := strip_zeros (S (N.to_nat (N.size (dcoef d)))) (dcoef d) (dexp d) in
+    mkDec (dsign d) c e.
 
 (* canonical form for numeric comparison: like normalize but without rounding and with +0 *)
 Definition dec_canon (d : dec) : dec :=
@@ -142,6 +142,19 @@ Definition dec_to_str (d : dec) : str :=
       firstn (Z.to_nat dotplace) ds ++ [c_dot] ++ skipn (Z.to_nat dotplace) ds in
   let e := if (leftdigits =? dotplace)%Z then [] else c_E :: exp_to_str (leftdigits - dotplace) in
   (if dsign d then [c_minus] else []) ++ body ++ e.
+
+(* format(d, "f"): positional notation, as luqum.tree._number_to_str prints degrees and forces *)
+Definition dec_to_fstr (d : dec) : str :=
+  let ds := digits_of (dcoef d) in
+  let len := length ds in
+  let body :=
+    if (0 <=? dexp d)%Z then
+      if N.eqb (dcoef d) 0 then [c_zero] else ds ++ repeat_char c_zero (Z.to_nat (dexp d))
+    else
+      let n := Z.to_nat (- dexp d) in
+      if Nat.ltb n len then firstn (len - n) ds ++ [c_dot] ++ skipn (len - n) ds
+      else [c_zero; c_dot] ++ repeat_char c_zero (n - len) ++ ds in
+  (if dsign d then [c_minus] else []) ++ body.
 
 (* is the printed form a plain decimal literal [0-9]+(\.[0-9]+)? ? *)
 Definition plain_decimal (s : str) : bool :=
